@@ -128,6 +128,8 @@ impl DiskReadScheduler {
                     }
 
                     let _token = self.reader_semaphore.access();
+                    #[cfg(locustdb_verif)]
+                    crate::verif::gate("load:before_read", handle.name());
                     match self.disk_store.load_column(
                         &handle.key().table,
                         handle.id(),
